@@ -61,6 +61,15 @@ CHECKS.update({
          "the client's sink and error handler are scripted/recording; the text of the line is not compared with a formatter model (C01/C04 are not applicable to this technique); single task"),
 })
 
+CHECKS.update({
+ "C17": ("macroproc", "E7", "5.7", "one fresh process per seeded history {macros while unset, set, second set, macros after} x fault script; differential against the explicit tagged quiet call on a twin client",
+         "Claimed narrowly. Seeded exploration with one child process per case (the global client is process-wide and set-once): every macro panics while unset and nothing is sent; after set_global_default(A) a second set is ignored for ever; each invocation from a compiled-in matrix (22 macro/value-type combinations x 0..3 tags, runtime strings and values incl. overflowing Durations) must hand A's sink exactly what `twin.<kind>_with_tags(k, v).with_tag(..).send()` hands the twin's, report failures only to A's handler exactly as the twin's, evaluate instrumented argument expressions once, and never panic once set.",
+         "most of C17 is a statement about macro expansion, i.e. about inputs; only the history dimension is simulation; the argument matrix is finite and compiled in; sinks are scripted"),
+ "C20": ("all", "all", "5.8", "all six simulation engines with hostile-value generators, overflow checks and debug assertions on, catch_unwind at every API call and task root; only un-injected panics are reported",
+         "Claimed partially. The history- and fault-dependent part (capacity - written after failed flushes, counters under every interleaving, lock().unwrap() after a panic elsewhere, unwinding through the worker and its sentinel) is decided by simulation; the pure-argument part (size hints, casts, formatting of extreme values) is merely exercised by the generators and reported as such.",
+         "sum of the trusted bases of the six engines; huge capacities and allocation failure are outside every generator"),
+})
+
 def main():
     hooks_commits = subprocess.run("git -C /repo log --format=%H --grep='^verif hooks'", shell=True, capture_output=True, text=True).stdout.split()
     checks = []
@@ -74,7 +83,7 @@ def main():
             "replay_cmd_template": f"./check {pid} --replay {{path}}",
             "engine": eng,
             "level_claimed": {"category": "exploration", "text": text, "design_ref": f"DESIGN.md section {ref}"},
-            "level_note": (note + "; single task, no scheduler involved; sampling, not proof") if eng in ("linebuf", "sinkfault") else (note + "; " + SIMNOTE),
+            "level_note": (note + "; single task, no scheduler involved; sampling, not proof") if eng in ("linebuf", "sinkfault", "macroproc", "all") else (note + "; " + SIMNOTE),
             "technique": "deterministic simulation with fault injection: " + tech,
         })
     claimed = set(CHECKS)
@@ -94,11 +103,12 @@ def main():
             "add_only": True,
         },
         "engines": [
-            {"name": "dsim", "path": "dsim/", "serves_properties": sorted(claimed), "kind_free_text": "simulation kernel (real threads, one runs at a time, seeded scheduler, quiescence detection, teardown) + pass-through shims"},
+            {"name": "dsim", "path": "dsim/", "serves_properties": sorted(claimed - {"C03", "C17"}), "kind_free_text": "simulation kernel (real threads, one runs at a time, seeded scheduler, quiescence detection, teardown) + pass-through shims"},
             {"name": "queue", "path": "ws/engines/src/e3.rs", "serves_properties": ["C08", "C09", "C10", "C11", "C15", "C16"], "kind_free_text": "E3: the real QueuingMetricSink (worker thread, sentinel respawn, crossbeam channel, counters) as simulated tasks against a scripted wrapped sink"},
             {"name": "sockets", "path": "ws/engines/src/e5.rs", "serves_properties": ["C12", "C13", "C14"], "kind_free_text": "E5: socket-backed sinks over simulated datagram sockets, 1-4 emitter tasks sharing a sink / client / queuing wrapper"},
             {"name": "holder", "path": "ws/engines/src/e6.rs", "serves_properties": ["C18"], "kind_free_text": "E6: SingletonHolder under simulated tasks with a happens-before tracker; miri-c18/ is the Miri second opinion"},
             {"name": "sinkfault", "path": "ws/engines/src/e1.rs", "serves_properties": ["C03"], "kind_free_text": "E1: StatsdClient over a scripted sink with a per-emit fault plan"},
+            {"name": "macroproc", "path": "ws/engines/src/e7.rs", "serves_properties": ["C17"], "kind_free_text": "E7: one fresh child process per history for the process-global client; differential against a twin client"},
             {"name": "linebuf", "path": "ws/engines/src/e2.rs", "serves_properties": ["C05", "C06", "C07", "C19"], "kind_free_text": "E2: histories of emit/flush/drop on the line-buffering writer and the buffered sinks with a per-write fault plan; reference model in ws/engines/src/linemodel.rs"},
         ],
         "checks": checks,
